@@ -98,7 +98,7 @@ func ruleDequeValidateFirst(c *Ctx, r *R) {
 		var validating []*ssa.Call
 		instrs(fn, func(b *ssa.BasicBlock, i int, in ssa.Instruction) {
 			if call, ok := in.(*ssa.Call); ok {
-				if cal := staticCallee(&call.Call); cal != nil && cal.Blocks != nil && rootFn(cal).Pkg == fn.Pkg && cal.Name() != "resize" && cal.Name() != "Len" {
+				if cal := staticCallee(&call.Call); cal != nil && cal.Blocks != nil && rootFn(cal).Pkg == fn.Pkg && fname(cal) != "resize" && fname(cal) != "Len" {
 					for _, cb := range cal.Blocks {
 						if _, isPanic := cb.Instrs[len(cb.Instrs)-1].(*ssa.Panic); isPanic {
 							validating = append(validating, call)
@@ -120,7 +120,7 @@ func ruleDequeValidateFirst(c *Ctx, r *R) {
 			case *ssa.IndexAddr:
 				sensitive = true
 			case *ssa.Call:
-				if cal := staticCallee(&x.Call); cal != nil && cal.Name() == "resize" {
+				if cal := staticCallee(&x.Call); cal != nil && fname(cal) == "resize" {
 					sensitive = true
 				}
 			}
@@ -278,7 +278,7 @@ func ruleDequeResize(c *Ctx, r *R) {
 				}
 			}
 			if call, ok := in.(*ssa.Call); ok {
-				if cal := staticCallee(&call.Call); cal != nil && cal.Name() == "resize" {
+				if cal := staticCallee(&call.Call); cal != nil && fname(cal) == "resize" {
 					calls = true
 				}
 			}
@@ -303,7 +303,7 @@ func ruleDequeResize(c *Ctx, r *R) {
 	instrs(rs, func(b *ssa.BasicBlock, i int, in ssa.Instruction) {
 		switch x := in.(type) {
 		case *ssa.Call:
-			if cal := staticCallee(&x.Call); cal != nil && cal.Name() == "Len" && lenCall == nil {
+			if cal := staticCallee(&x.Call); cal != nil && fname(cal) == "Len" && lenCall == nil {
 				lenCall = x
 			}
 			if bi, ok := x.Call.Value.(*ssa.Builtin); ok && bi.Name() == "copy" {
@@ -401,7 +401,7 @@ func ruleDequeExpandFloor(c *Ctx, r *R) {
 		if !ok {
 			return
 		}
-		if cal := staticCallee(&call.Call); cal == nil || cal.Name() != "resize" {
+		if cal := staticCallee(&call.Call); cal == nil || fname(cal) != "resize" {
 			return
 		}
 		n++
@@ -411,7 +411,7 @@ func ruleDequeExpandFloor(c *Ctx, r *R) {
 			pos = true
 		}
 		if mc, ok := arg.(*ssa.Call); ok {
-			if cal := staticCallee(&mc.Call); cal != nil && (cal.Name() == "Max" || strings.HasPrefix(cal.Name(), "Max[")) || isBuiltinNamed(mc, "max") {
+			if cal := staticCallee(&mc.Call); cal != nil && (fname(cal) == "Max" || strings.HasPrefix(fname(cal), "Max[")) || isBuiltinNamed(mc, "max") {
 				for _, a := range mc.Call.Args {
 					if k, ok := a.(*ssa.Const); ok && k.Value != nil && k.Int64() >= 1 {
 						pos = true
@@ -431,7 +431,7 @@ func ruleDequeExpandFloor(c *Ctx, r *R) {
 		if !ok {
 			return
 		}
-		if cal := staticCallee(&call.Call); cal == nil || cal.Name() != "resize" {
+		if cal := staticCallee(&call.Call); cal == nil || fname(cal) != "resize" {
 			return
 		}
 		gs := guardsOf(b)
@@ -450,7 +450,7 @@ func ruleDequeExpandFloor(c *Ctx, r *R) {
 		first := false
 		for _, in := range fn.Blocks[0].Instrs {
 			if call, ok := in.(*ssa.Call); ok {
-				if cal := staticCallee(&call.Call); cal != nil && cal.Name() == "maybeExpand" {
+				if cal := staticCallee(&call.Call); cal != nil && fname(cal) == "maybeExpand" {
 					first = true
 				}
 				break
